@@ -40,6 +40,7 @@ func runC13(p *Prog, r *Report) {
 	c13DecodedArgument(p, r, "R13.7-decoded-argument")
 	c13EntityFieldFlow(p, r, "R13.8-entity-field-flow")
 	c13DecodersReplace(p, r, "R13.9-decoders-replace")
+	checkTotalOrderComparatorsAs(p, r, "R13.4-stable-encoding-order")
 	c13CoercionExhaustive(p, r, "R13.10-coercion-exhaustive")
 	c13ImplicitEntity(p, r)
 }
